@@ -181,6 +181,31 @@ theorem massAction_svol (k : Nat) (R : List Nat) (x p : Nat → α) (V t : α) (
     rw [initLoop_numSpecies, LawfulTransc.pow_natCast _ _ hV]
     simp [div_eq_mul_inv]
 
+/-! ### The rate depends on the reactant *multiset* only -/
+
+/-- **however the reactants are listed** (a repeated species next to its copy or with other species in between), the
+deterministic mass-action rate is the same. -/
+theorem massAction_det_perm (k : Nat) (R R' : List Nat) (h : R.Perm R') (x p : Nat → α) (t : α) :
+    (createMassAction (α := α) k R).det x p t = (createMassAction (α := α) k R').det x p t := by
+  rw [massAction_det, massAction_det]
+  unfold detSpec
+  rw [(h.map x).prod_eq]
+
+/-- the same for the stochastic rate (falling factorials per distinct species). -/
+theorem massAction_stoch_perm (k : Nat) (R R' : List Nat) (h : R.Perm R') (x p : Nat → α) (t : α) (hx : ∀ s, 0 ≤ x s) :
+    (createMassAction (α := α) k R).stoch x p t = (createMassAction (α := α) k R').stoch x p t := by
+  rw [massAction_stoch k R x p t hx, massAction_stoch k R' x p t hx]
+  unfold stochSpec
+  have hfin : R.toFinset = R'.toFinset := by
+    ext s; simp [h.mem_iff]
+  rw [hfin]
+  congr 1
+  apply Finset.prod_congr rfl
+  intro s _
+  rw [h.count_eq]
+
+example : [0, 1, 0].Perm [0, 0, 1] := by decide
+
 /-! ### Hill family -/
 
 /-- the Hill ratio `u = (s/K)^n`. -/
